@@ -530,4 +530,173 @@ theorem update_refines_create_node_rows (g : Graph) (hg : g.nodes.Pairwise fun a
     simp only [Spec.applyClause, Spec.forRows]
     exact h2
 
+/-! ### REMOVE x.k on nodes: every table in which no node is targeted by two rows -/
+
+/-- one row of `REMOVE x.k` from any simulated state in which the reference's current properties of the target are
+    still the snapshot's (what the model decides the count against) -/
+theorem remove_prop_row (g : Graph) (next : Nat) (m : Update.St) (sp : Spec.St) (hR : USim g next m sp)
+    (r : Row) (x k : String) (n : Nat) (hx : r.get x = some (.node n))
+    (hsame : Spec.propsOf sp.g (.node n) = Update.nodeProps g n) :
+    ∃ m' u' sp', Update.removePropertyRow g [(x, k)] m ⟨r, []⟩ = .ok (m', u') ∧
+      [RemItem.prop x k].foldlM (Spec.remItem r) sp = .ok sp' ∧ USim g next m' sp' ∧
+      (∀ n', n' ≠ n → Spec.propsOf sp'.g (.node n') = Spec.propsOf sp.g (.node n')) ∧
+      m'.ops = m.ops ++ [.removeNodeProp n k] := by
+  have hmodel : ∃ u', Update.removePropertyRow g [(x, k)] m ⟨r, []⟩ =
+      .ok ({ m with ops := m.ops ++ [.removeNodeProp n k],
+                    count := m.count + if (Update.nodeProps g n).any (·.1 == k) then 1 else 0 }, u') := by
+    simp only [Update.removePropertyRow, List.forIn_cons, List.forIn_nil, hx, Update.URow.props, List.lookup, bind,
+      Except.bind, pure, Except.pure, Update.URow.ent]
+    exact ⟨_, rfl⟩
+  obtain ⟨u', hu'⟩ := hmodel
+  have hspec : [RemItem.prop x k].foldlM (Spec.remItem r) sp = .ok
+      { sp with g := Update.applyOp sp.g (.removeNodeProp n k),
+                c := { sp.c with propsSet := sp.c.propsSet +
+                  (if (Spec.propsOf sp.g (.node n)).any (·.1 == k) then 1 else 0) } } := by
+    simp only [List.foldlM_cons, List.foldlM_nil, Spec.remItem, hx, Spec.target?, bind, Except.bind, pure, Except.pure,
+      remove_prop_graph_eq sp.g hR.distinct n k]
+  refine ⟨_, u', _, hu', hspec, ⟨?_, hR.next, ?_, ?_⟩, ?_, rfl⟩
+  · simp only [applyOps_snoc, hR.graph]
+  · have := hR.count
+    rw [hsame]
+    simp only [Counts.total] at this ⊢
+    omega
+  · exact updNode_distinct sp.g n _ (fun _ => rfl) hR.distinct
+  · intro n' hne
+    show Spec.propsOf (Update.applyOp sp.g (.removeNodeProp n k)) (.node n') = _
+    simp only [Update.applyOp, Spec.propsOf]
+    rw [node?_updNode_ne sp.g n n' (fun nd => { nd with props := Spec.delKey nd.props k }) (fun _ => rfl) hne]
+
+/-- **update_refines (REMOVE x.k, all rows, every node targeted by at most one row)** — the model counts a removal
+    when the SNAPSHOT has the property, the reference when the CURRENT graph has it; with pairwise distinct targets
+    they coincide: same committed graph, same count. -/
+theorem update_refines_remove_prop_rows (g : Graph) (hg : g.nodes.Pairwise fun a b => a.id ≠ b.id) (next : Nat)
+    (names : List String) (w : Update.WPlan) (x k : String) (T : Table)
+    (hT : ∀ r ∈ T, ∃ n, r.get x = some (.node n))
+    (hdist : (targetsOf x (T.map fun r => { row := r })).Nodup) :
+    ∃ m T' sp, Update.runStage A params g next names w {} (T.map fun r => { row := r }) (.removeProperty [(x, k)]) =
+        .ok (m, T') ∧
+      Spec.applyClause A params { g, next } T (.remove [.prop x k]) = .ok (sp, T) ∧
+      USim g next m sp := by
+  have hmapRow : (T.map fun r => ({ row := r } : Update.URow)).map (·.row) = T := by
+    simp [List.map_map, Function.comp_def]
+  obtain ⟨m, T', sp, h1, h2, hR⟩ := rows_simulation_prefix
+    (fun m u => Update.removePropertyRow g [(x, k)] m u)
+    (fun sp r => [RemItem.prop x k].foldlM (Spec.remItem r) sp)
+    (fun pre m sp => USim g next m sp ∧
+      ∀ n, n ∉ targetsOf x pre → Spec.propsOf sp.g (.node n) = Update.nodeProps g n)
+    (T.map fun r => { row := r })
+    (by
+      intro pre u post hsplit m sp hR
+      have hu : u ∈ T.map fun r => ({ row := r } : Update.URow) := by rw [hsplit]; simp
+      obtain ⟨r, hr, rfl⟩ := List.mem_map.mp hu
+      obtain ⟨n, hx⟩ := hT r hr
+      have htn : Update.rowNode r x = some n := by simp [Update.rowNode, hx]
+      have hnotin : n ∉ targetsOf x pre := by
+        rw [hsplit] at hdist
+        simp only [targetsOf, List.filterMap_append, List.filterMap_cons, htn] at hdist
+        have := (List.nodup_append.mp hdist).2.2
+        intro hmem
+        exact this n hmem n (by simp) rfl
+      obtain ⟨m', u', sp', a1, a2, a3, a4, _⟩ := remove_prop_row g next m sp hR.1 r x k n hx (hR.2 n hnotin)
+      refine ⟨m', u', sp', a1, a2, a3, ?_⟩
+      intro n' hn'
+      have hne : n' ≠ n := by
+        intro h; subst h
+        exact hn' (by simp [targetsOf, List.filterMap_append, htn])
+      have hpre : n' ∉ targetsOf x pre := by
+        intro h; exact hn' (by simp only [targetsOf, List.filterMap_append, List.mem_append]; exact Or.inl h)
+      rw [a4 n' hne, hR.2 n' hpre])
+    (T.map fun r => { row := r }) [] (by simp) {} { g, next } [] []
+    ⟨USim.init g hg next, fun _ _ => rfl⟩
+  refine ⟨m, T', sp, ?_, ?_, hR.1⟩
+  · simp only [Update.runStage]
+    rw [forIn_stage_eq_foldlM (fun m u => Update.removePropertyRow g [(x, k)] m u), h1]
+    rfl
+  · rw [hmapRow] at h2
+    simp only [Spec.applyClause, Spec.forRows]
+    simpa using h2
+
+/-! ### SET x.k = null (a removal) on nodes: distinct targets -/
+
+theorem set_null_row (g : Graph) (next : Nat) (m : Update.St) (sp : Spec.St) (hR : USim g next m sp)
+    (r : Row) (x k : String) (e : Expr) (n : Nat) (hx : r.get x = some (.node n))
+    (hv : eval A { g, params } r e = .null)
+    (hsame : Spec.propsOf sp.g (.node n) = Update.nodeProps g n) :
+    ∃ m' u' sp', Update.setPropertyRow A params g [(x, k, e)] m ⟨r, []⟩ = .ok (m', u') ∧
+      Spec.applySetItems A params g r sp [.prop x k e] = .ok sp' ∧ USim g next m' sp' ∧
+      (∀ n', n' ≠ n → Spec.propsOf sp'.g (.node n') = Spec.propsOf sp.g (.node n')) := by
+  have hmodel : ∃ u', Update.setPropertyRow A params g [(x, k, e)] m ⟨r, []⟩ =
+      .ok ({ m with ops := m.ops ++ [.removeNodeProp n k],
+                    count := m.count + if (Update.nodeProps g n).any (·.1 == k) then 1 else 0 }, u') := by
+    simp only [Update.setPropertyRow, List.forIn_cons, List.forIn_nil, ev_noOverlay, hv, Update.toProp, bind,
+      Except.bind, pure, Except.pure, Update.rowNode, hx, BEq.rfl, ↓reduceIte, Update.URow.props, List.lookup,
+      Update.URow.ent]
+    exact ⟨_, rfl⟩
+  obtain ⟨u', hu'⟩ := hmodel
+  have hspec : Spec.applySetItems A params g r sp [.prop x k e] = .ok
+      { sp with g := Update.applyOp sp.g (.removeNodeProp n k),
+                c := { sp.c with propsSet := sp.c.propsSet +
+                  (if (Spec.propsOf sp.g (.node n)).any (·.1 == k) then 1 else 0) } } := by
+    simp only [Spec.applySetItems, List.foldlM_cons, List.foldlM_nil, Spec.setItem, hx, Spec.target?, Spec.evalIn, hv,
+      Spec.writeProp, Val.toScalar?, bind, Except.bind, pure, Except.pure, remove_prop_graph_eq sp.g hR.distinct n k]
+  refine ⟨_, u', _, hu', hspec, ⟨?_, hR.next, ?_, ?_⟩, ?_⟩
+  · simp only [applyOps_snoc, hR.graph]
+  · have := hR.count
+    rw [hsame]
+    simp only [Counts.total] at this ⊢
+    omega
+  · exact updNode_distinct sp.g n _ (fun _ => rfl) hR.distinct
+  · intro n' hne
+    show Spec.propsOf (Update.applyOp sp.g (.removeNodeProp n k)) (.node n') = _
+    simp only [Update.applyOp, Spec.propsOf]
+    rw [node?_updNode_ne sp.g n n' (fun nd => { nd with props := Spec.delKey nd.props k }) (fun _ => rfl) hne]
+
+/-- **update_refines (SET x.k = e with e null on every row — a removal — distinct targets)** -/
+theorem update_refines_set_null_rows (g : Graph) (hg : g.nodes.Pairwise fun a b => a.id ≠ b.id) (next : Nat)
+    (names : List String) (w : Update.WPlan) (x k : String) (e : Expr) (T : Table)
+    (hT : ∀ r ∈ T, (∃ n, r.get x = some (.node n)) ∧ eval A { g, params } r e = .null)
+    (hdist : (targetsOf x (T.map fun r => { row := r })).Nodup) :
+    ∃ m T' sp, Update.runStage A params g next names w {} (T.map fun r => { row := r }) (.setProperty [(x, k, e)]) =
+        .ok (m, T') ∧
+      Spec.applyClause A params { g, next } T (.set [.prop x k e]) = .ok (sp, T) ∧
+      USim g next m sp := by
+  have hmapRow : (T.map fun r => ({ row := r } : Update.URow)).map (·.row) = T := by
+    simp [List.map_map, Function.comp_def]
+  obtain ⟨m, T', sp, h1, h2, hR⟩ := rows_simulation_prefix
+    (fun m u => Update.setPropertyRow A params g [(x, k, e)] m u)
+    (fun sp r => Spec.applySetItems A params g r sp [.prop x k e])
+    (fun pre m sp => USim g next m sp ∧
+      ∀ n, n ∉ targetsOf x pre → Spec.propsOf sp.g (.node n) = Update.nodeProps g n)
+    (T.map fun r => { row := r })
+    (by
+      intro pre u post hsplit m sp hR
+      have hu : u ∈ T.map fun r => ({ row := r } : Update.URow) := by rw [hsplit]; simp
+      obtain ⟨r, hr, rfl⟩ := List.mem_map.mp hu
+      obtain ⟨⟨n, hx⟩, hv⟩ := hT r hr
+      have htn : Update.rowNode r x = some n := by simp [Update.rowNode, hx]
+      have hnotin : n ∉ targetsOf x pre := by
+        rw [hsplit] at hdist
+        simp only [targetsOf, List.filterMap_append, List.filterMap_cons, htn] at hdist
+        have := (List.nodup_append.mp hdist).2.2
+        intro hmem
+        exact this n hmem n (by simp) rfl
+      obtain ⟨m', u', sp', a1, a2, a3, a4⟩ := set_null_row A params g next m sp hR.1 r x k e n hx hv (hR.2 n hnotin)
+      refine ⟨m', u', sp', a1, a2, a3, ?_⟩
+      intro n' hn'
+      have hne : n' ≠ n := by
+        intro h; subst h
+        exact hn' (by simp [targetsOf, List.filterMap_append, htn])
+      have hpre : n' ∉ targetsOf x pre := by
+        intro h; exact hn' (by simp only [targetsOf, List.filterMap_append, List.mem_append]; exact Or.inl h)
+      rw [a4 n' hne, hR.2 n' hpre])
+    (T.map fun r => { row := r }) [] (by simp) {} { g, next } [] []
+    ⟨USim.init g hg next, fun _ _ => rfl⟩
+  refine ⟨m, T', sp, ?_, ?_, hR.1⟩
+  · simp only [Update.runStage]
+    rw [forIn_stage_eq_foldlM (fun m u => Update.setPropertyRow A params g [(x, k, e)] m u), h1]
+    rfl
+  · rw [hmapRow] at h2
+    simp only [Spec.applyClause, Spec.forRows]
+    simpa using h2
+
 end Nervus.Cy
